@@ -37,8 +37,11 @@ TAGS = {
     "sqlite_other": ["sqlite3.connect", "sqlite3.Connection", "sqlite3.dbapi2.Error", "sqlite3.Row"],
     "foreign_ns": ["os.system", "subprocess.Popen", "subprocess.CalledProcessError", "json.JSONDecodeError", "shutil.SameFileError", "socket.socket",
                    "colorsys.Error", "decimal.Decimal", "collections.OrderedDict", "zlib.error", "ssl.SSLError", "importlib.import_module",
-                   b"os.system", b"subprocess.Popen"],
-    "nodot": ["system", "Popen", "Local", "URI"],
+                   b"os.system", b"subprocess.Popen",
+                   # classes that serializers write natively or as special dicts of their own (none of them is read back from a tag)
+                   "collections.OrderedDict", "uuid.UUID", "datetime.datetime", "collections.deque", "array.array", "fractions.Fraction",
+                   "collections.OrderedDict", "datetime.timedelta", "collections.defaultdict", "collections.Counter"],
+    "nodot": ["system", "Popen", "Local", "URI", "complex", "set", "bytes", "OrderedDict", "frozenset", "Decimal", "tuple"],
     "float_pseudo": ["float"],
     "falsy": ["", None, 0, False, b"", []],
     "nonstring": [5, 1.5, True, ["builtins.ValueError"], ("Pyro5.core.URI",), {"a": 1},
@@ -152,6 +155,20 @@ def tagged(tag, flagged, body, tagclass, rng):
         d["state"] = valid_state.get(tagclass, [])
         d["value"] = "2.5"
         d["exception"] = {"__class__": "KeyError", "__exception__": True, "args": ["k"], "attributes": {}}
+    # the member names under which serializers write the content of their own special dicts (an ordered dict's items, a complex
+    # number's parts, bytes) - a decoder that honoured such a tag would look there
+    if body != "minimal":
+        ROTATE["xm"] = xr = ROTATE.get("xm", -1) + 1
+        extra = {"items": [["k", 1], ["l", 2]], "real": 1.5, "imag": "nan", "data": "QUJD", "encoding": "base64", "name": "n",
+                 "values": [1, 2], "year": 2020, "hex": "12345678123456781234567812345678"}
+        if body in ("proxy_members", "proxy_in_state"):
+            names = sorted(extra)
+            extra[names[xr % len(names)]] = {"__class__": "Pyro5.client.Proxy", "state": ["PYRO:obj@localhost:1", [], [], [], "hello", None]}
+        elif body == "hostile_args":
+            extra["items"] = rng.choice([None, 7, "ab", [[1, 2, 3]], {"a": 1}])
+            extra["real"] = rng.choice([None, "x", [1]])
+        for k, v in extra.items():
+            d.setdefault(k, v)
     return d
 
 
